@@ -50,6 +50,8 @@ def run(prog: Program, rep, tier="quick"):
     rep.rule("R16.3", "SIBLINGS-AGREE: the value compared with old_ref defaults to ZERO_SHA when the ref is absent")
     rep.rule("R16.4", "writable backends override the abstract operations; overrides accept the base signature")
     rep.rule("R16.5", "TABLE-AGREE: check_ref_format tests every rule of git-check-ref-format(1), each on a path to False")
+    rep.rule("R16.7", "files backend: after symref resolution, paths and file/directory conflict probes use the resolved name")
+    rep.rule("R16.8", "files backend: every successful delete passes the empty-parent-directory cleanup")
     rep.rule("R16.6", "packed-refs grammar: writer and readers agree on '<sha> SP <name> LF', '^<sha> LF', header")
     rep.not_decided += ["equality with the map model over operation sequences", "directory/file conflicts",
                         "git's own view of the directory", "whether pack_refs preserves symbolic refs"]
@@ -116,6 +118,45 @@ def run(prog: Program, rep, tier="quick"):
                     rep.ob("R16.4", m.rel, res.qual, "accepts every call made through the base signature",
                            (not missing or has_kwargs) and order_ok,
                            f"parameters of the base not accepted: {missing}", res.node.lineno)
+    # ---- R16.7 resolved-name discipline in the files backend: once a method has resolved a symbolic ref to `realname`,
+    # the file path and the file/directory conflict probe are computed from it, never from the name it was called with
+    dm = prog.module(REFS_PY)
+    n7 = 0
+    for q, f in dm.funcs.items():
+        if f.cls != "DiskRefsContainer" or "#" in q:
+            continue
+        defs = [s_ for s_ in ast.walk(f.node) if isinstance(s_, ast.Assign) and isinstance(s_.targets[0], ast.Name) and s_.targets[0].id == "realname"]
+        if not defs:
+            continue
+        first = min(d.lineno for d in defs)
+        pnames = [a.arg for a in f.node.args.args[1:2]]
+        for c in ast.walk(f.node):
+            if isinstance(c, ast.Call) and getattr(c, "lineno", 0) > first and (callee_name(c) == "refpath" or dotted(c.func) == "os.path.dirname") and c.args:
+                used = {x.id for x in ast.walk(c.args[0]) if isinstance(x, ast.Name)}
+                if not used & (set(pnames) | {"realname"}):
+                    continue
+                n7 += 1
+                rep.ob("R16.7", REFS_PY, f.qual, f"{norm(c, 50)} uses the resolved name", not (used & set(pnames)),
+                       f"after the symbolic ref was resolved to `realname`, `{norm(c, 50)}` is computed from the name the "
+                       f"method was called with: through a symref the path or the file/directory conflict probe belongs to "
+                       f"the wrong ref", c.lineno)
+    if n7 < 3:
+        raise AnalysisError(f"expected >= 3 path computations after symref resolution, found {n7}")
+    # ---- R16.8 deleting a ref cleans up the directories that became empty (so that the name can be reused as a ref):
+    # every successful return of remove_if_equals passes the rmdir loop
+    rf = prog.func(REFS_PY, "DiskRefsContainer.remove_if_equals")
+    g = cfg_of(prog, rf)
+    rets = [i for i, n in g.nodes.items() if n.kind == "stmt" and isinstance(n.ast, ast.Return)
+            and isinstance(n.ast.value, ast.Constant) and n.ast.value.value is True]
+    rmdir = [i for i, n in g.nodes.items() for c in __import__("sa.cfg", fromlist=["node_calls"]).node_calls(n) if dotted(c.func) == "os.rmdir"]
+    from sa.flow import must_pass as _mp
+    # the loop may legitimately end before reaching rmdir when the name has no parent below refs/: accept the loop head
+    heads = [i for i, n in g.nodes.items() if n.kind == "stmt" and isinstance(n.ast, (ast.Assign,)) and "rsplit" in norm(n.ast)]
+    bad = _mp(g, rets, set(rmdir) | set(heads))
+    rep.ob("R16.8", REFS_PY, rf.qual, "every successful delete passes the empty-parent-directory cleanup", bool(rets) and bool(rmdir) and not bad,
+           "a `return True` is reachable without the cleanup of parent directories: an empty directory (left by the lock "
+           "file's ensure_dir_exists or by pack_refs) then blocks re-creating a ref of the same name as the directory",
+           g.nodes[bad[0]].line if bad else rf.node.lineno)
     # ---- R16.5
     m = prog.module(REFS_PY)
     crf = prog.func(REFS_PY, "check_ref_format")
